@@ -185,6 +185,33 @@ class BuildDirs:
                 parent = os.path.dirname(parent)
         return locked_created_dirs
 
+    def error_making_dirs(self, made_dirs):
+        """Handle an exception making the parent directories for a file.
+
+        This is for the case where we created some of the parent
+        directories in the real file system, but failed before calling
+        ``started_building_file``.
+
+        Arguments:
+            made_dirs (list<str>): The non-norm-cased directories that
+                we created in the real file system.
+        """
+        with self._lock:
+            for dir_ in made_dirs:
+                norm_cased_dir = os.path.normcase(dir_)
+                if norm_cased_dir in self._created_dirs_map:
+                    continue
+                elif norm_cased_dir in self._build_dir_counts:
+                    # Another thread reserved the directory after seeing it in
+                    # the real file system
+                    self._created_dirs_map[norm_cased_dir] = dir_
+                    self._removed_files.discard(norm_cased_dir)
+                else:
+                    self._error_created_dirs.add(norm_cased_dir)
+                    self._maybe_removed_dirs.add(norm_cased_dir)
+                    self._removed_dirs.discard(norm_cased_dir)
+            self._exists_dirs.clear()
+
     def error_building_file(self, filename):
         """Handle an exception building the specified file."""
         prev_parent = os.path.normcase(filename)
